@@ -987,6 +987,10 @@ pub mod verif_hooks {
         s.partial.contains_key(&p)
     }
 
+    pub fn partial_get(s: &RelationSet, p: u64) -> Option<Vec<u8>> {
+        s.partial.get(&p).map(|r| r.blob.to_vec())
+    }
+
     pub fn sizes(s: &RelationSet) -> (usize, usize, usize) {
         (s.partial.len(), s.doubles.len(), s.doubles_rev.len())
     }
